@@ -73,6 +73,8 @@ def _cases(tier, seed):
         for idx in (subsets if d <= 3 or th else _pick(subsets, 6, rng)):
             cs.append({'scen': 'tt_sum', 's': {'N': N, 'R': R, 'index': list(idx), 'dtype': 'float64'}})
         cs.append({'scen': 'tt_sum', 's': {'N': N, 'R': R, 'index': [d - 1], 'as_int': True, 'dtype': 'float64'}})
+        cs.append({'scen': 'tt_sum', 's': {'N': N, 'R': R, 'index': [0], 'as_int': True, 'dtype': 'float64'}})
+        cs.append({'scen': 'tt_sum', 's': {'N': N, 'R': R, 'index': [], 'dtype': 'float64'}})
     for N, M, R in [([2], [3], [1, 1]), ([2, 3], [3, 1], [1, 2, 1]), ([1, 2, 2], [2, 1, 2], [1, 2, 2, 1])]:
         d = len(N)
         cs.append({'scen': 'tt_sum', 's': {'N': N, 'M': M, 'R': R, 'dtype': 'float64'}})
